@@ -59,6 +59,7 @@ type PathResult struct {
 }
 
 type Exec struct {
+	jsonUseNumber bool // a json.Decoder with UseNumber is decoding
 	w       *Worker
 	tc      *TermCtx
 	sol     *Solver
